@@ -17,6 +17,9 @@ package hctx
 //@ assigns nothing
 
 //@ iface hctx.Context.Set(ctx, key, value)
+// for plush's own context type: the entry is written into the context's own map, other entries stay
+//@ ensures plushput: is(ctx, "*plush.Context") ==> has(unbox(ctx, "*plush.Context").data, key) && unbox(ctx, "*plush.Context").data[key] == value
+//@ ensures plushrest: is(ctx, "*plush.Context") ==> (forall k string :: k != key ==> has(unbox(ctx, "*plush.Context").data, k) == old(has(unbox(ctx, "*plush.Context").data, k)) && unbox(ctx, "*plush.Context").data[k] == old(unbox(ctx, "*plush.Context").data[k]))
 //@ assigns mapsof("map[string]interface{}")
 
 //@ iface hctx.Context.New(ctx) r
